@@ -4,8 +4,10 @@
      related[idx]        the PREVIOUS conditions related to condition idx (computed when idx is appended)
      var_to_conds[var]   the conditions in which the variable occurs
    Path.append(cond):    idx = len(conditions); related[idx] = _get_related(vars(cond)); var_to_conds[v].add(idx) for v in vars(cond)
-   Path.slice(var_set):  sliced = _get_related(var_set)            (Exec.path_slice: var_set = variables of the balance,
-                                                                    of symbolic code chunks and of the stored values)
+   Path.slice(var_set):  a worklist closure: every condition in which a variable of the worklist occurs is sliced
+                         and its variables join the worklist      (Exec.path_slice: var_set = variables of the balance,
+                                                                    of the block fields but the timestamp, of symbolic
+                                                                    code chunks and of the stored values)
    _get_related, the dependency update of append and slice are regenerated from the source in
    Gen/GenPathSlice.v; this file has the data they work on.
    Conditions are named by their position (nat), variables by numbers (Z).  Definitions only. *)
@@ -21,6 +23,13 @@ Record pdeps := mkP {
 Definition p_empty : pdeps := mkP O (fun _ => []) (fun _ => []).
 
 Definition vmem (x : Z) (l : list Z) : bool := existsb (Z.eqb x) l.
+Definition nmem (x : nat) (l : list nat) : bool := existsb (Nat.eqb x) l.
+
+(* enough iterations for the loop of Path.slice: one more than the number of state variables plus the
+   number of variable occurrences in the conditions (every pop is one iteration; every variable is
+   pushed at most once per condition it occurs in, plus the initial ones) *)
+Definition slice_fuel (vs : list (list Z)) (sv : list Z) : nat :=
+  S (length sv + list_sum (map (@length Z) vs)).
 
 (* set(x) payable { s = x; require(x == msg.value); if (msg.value > 9) {} else {} } :
    variables 1 = x, 2 = msg.value; conditions 0: x == msg.value, 1: msg.value > 9; state variables {x} *)
